@@ -118,7 +118,7 @@ def term_of(c, p, e):
     # the two agree, and when they disagree the model runs out of decisions (status budget) and the case is reported
     sched = c['sched'][:len(p['steps']) + 2]
     return '(GC %d %d %d%%nat %s %s %s %d %s %d %d %s %s %d %d)' % (
-        c['strat'], SHIFT_OF[c['esz']], c['budget'],
+        c['strat'], SHIFT_OF[c['esz']], ls_common.fuel_of(c['budget'], p['status']),
         clist([clist([op_coq(o) for o in pr]) for pr in c['progs']]),
         '(dec %d%%nat 12 %d)' % (len(sched), sum(d * 12 ** i for i, d in enumerate(sched))),
         '(dec_trace %d%%nat %d)' % (len(p['steps']), sum((a * 16 + b) * 256 ** i for i, (a, b) in enumerate(p['steps']))),
